@@ -4,7 +4,7 @@ CONSTANTS
   N0 = 4
   N1 = 2
   N2 = 1
-  L1 = 2
+  L1 = 1
   L2 = 1
   MaxArgs = 0
   Fns = {}
